@@ -78,6 +78,19 @@ def substitute(expr, subs):
         subs = tuple(subs.items())
     support = frozenset(k for k, v in subs)
 
+    # A value that mentions a substituted name reintroduces that name as a
+    # fresh input of rebuilt subterms, where it would be substituted again.
+    # Rename such names apart first so that the substitution is simultaneous.
+    clash = support & frozenset(k2 for k, v in subs for k2 in v.inputs)
+    if isinstance(expr, Funsor) and not clash.isdisjoint(expr.inputs):
+        rename = {k: interpreter.gensym(k + "__SUBS") for k in clash if k in expr.inputs}
+        with reflect:
+            expr = substitute(
+                expr, tuple((k, Variable(v, expr.inputs[k])) for k, v in rename.items())
+            )
+        subs = tuple((rename.get(k, k), v) for k, v in subs)
+        support = frozenset(k for k, v in subs)
+
     def stop(x):
         if interpreter.is_atom(x):
             return True
